@@ -126,7 +126,7 @@ package ratelimit
 //@   stable m
 
 //@ pred setOf(tl *TokenLimiter, k string) = asref(tl.bucketSets.vval[k], "*TokenBucketSet")
-//@ pred entriesTyped(tl *TokenLimiter) = tl.bucketSets != nil && (forall k string :: tl.bucketSets.vdom[k] ==> tl.bucketSets.vtag[k] == typeid("*TokenBucketSet") && allocated(setOf(tl, k)) && setOf(tl, k) != nil && setOf(tl, k).buckets != nil && allocated(setOf(tl, k).buckets) && setOf(tl, k).maxPeriod >= 0)
+//@ pred entriesTyped(tl *TokenLimiter) = tl.bucketSets != nil && tl.bucketSets.OnExpire == nil && (forall k string :: tl.bucketSets.vdom[k] ==> tl.bucketSets.vtag[k] == typeid("*TokenBucketSet") && allocated(setOf(tl, k)) && setOf(tl, k) != nil && setOf(tl, k).buckets != nil && allocated(setOf(tl, k).buckets) && setOf(tl, k).maxPeriod >= 0)
 //@ pred entriesBucketsOK(tl *TokenLimiter) = forall k string, p int :: tl.bucketSets.vdom[k] && in(p, setOf(tl, k).buckets) ==> bucketOK(setOf(tl, k).buckets[p]) && allocated(setOf(tl, k).buckets[p]) && setOf(tl, k).buckets[p].period == p
 //@ pred disjointSets(tl *TokenLimiter) = forall k1 string, k2 string :: tl.bucketSets.vdom[k1] && tl.bucketSets.vdom[k2] && k1 != k2 ==> setOf(tl, k1) != setOf(tl, k2) && setOf(tl, k1).buckets != setOf(tl, k2).buckets && (forall p int :: in(p, setOf(tl, k1).buckets) && in(p, setOf(tl, k2).buckets) ==> setOf(tl, k1).buckets[p] != setOf(tl, k2).buckets[p])
 
@@ -137,6 +137,13 @@ package ratelimit
 //@   lockinv mutex (tl): entries_typed: entriesTyped(tl)
 //@   lockinv mutex (tl): entries_buckets_ok: entriesBucketsOK(tl)
 //@   lockinv mutex (tl): entries_disjoint: disjointSets(tl)
+
+// The constructor establishes the limiter's lock invariants: an empty map, without expiry callback.
+//@ func New
+//@   props C03 C13 C14
+//@   modifies everything
+//@   ensures invariants_established: result1 == nil ==> result0 != nil && fresh(result0) && entriesTyped(result0) && entriesBucketsOK(result0) && disjointSets(result0) && result0.bucketSets.vlen == 0 && fresh(result0.bucketSets)
+//@   ensures result1 == nil ==> result0.defaultRates == defaultRates && result0.bucketSets.capacity == max(result0.capacity, 0)
 
 //@ func NewTokenBucketSet
 //@   props C03 C13
@@ -198,6 +205,12 @@ package ratelimit
 //@   ensures live_entry_reused: old(live(tl.bucketSets, source)) ==> tl.bucketSets.vval[source] == old(tl.bucketSets.vval[source])
 //@   ensures admitted_debits_every_rate: result == nil ==> (forall p int :: in(p, setOf(tl, source).buckets) ==> setOf(tl, source).buckets[p].lastConsumed == amount)
 //@   ensures refused_debits_nothing: result != nil ==> (forall p int :: in(p, setOf(tl, source).buckets) ==> setOf(tl, source).buckets[p].lastConsumed == 0)
+//@   ensures {C14} other_sources_buckets_untouched: forall k string, p int :: k != source && old(tl.bucketSets.vdom[k]) && old(in(p, setOf(tl, k).buckets)) ==> untouched(old(setOf(tl, k).buckets[p])) && in(p, old(setOf(tl, k)).buckets) && old(setOf(tl, k)).buckets[p] == old(setOf(tl, k).buckets[p])
+//@   ensures {C14} other_sources_never_created: forall k string :: k != source && !old(tl.bucketSets.vdom[k]) ==> !tl.bucketSets.vdom[k]
+//@   ensures {C14} other_sources_kept_as_they_were: forall k string :: k != source && tl.bucketSets.vdom[k] ==> old(tl.bucketSets.vdom[k]) && tl.bucketSets.vval[k] == old(tl.bucketSets.vval[k]) && tl.bucketSets.vtag[k] == old(tl.bucketSets.vtag[k]) && tl.bucketSets.vexp[k] == old(tl.bucketSets.vexp[k])
+//@   ensures {C14} nobody_forgotten_within_capacity: old(live(tl.bucketSets, source)) || old(tl.bucketSets.vlen) < tl.bucketSets.capacity ==> (forall k string :: k != source ==> tl.bucketSets.vdom[k] == old(tl.bucketSets.vdom[k]))
+//@   ensures {C14} at_most_one_forgotten: forall k1 string, k2 string :: k1 != source && k2 != source && old(tl.bucketSets.vdom[k1]) && !tl.bucketSets.vdom[k1] && old(tl.bucketSets.vdom[k2]) && !tl.bucketSets.vdom[k2] ==> k1 == k2
+//@   ensures {C14} forgotten_is_nearest_expiry: forall k string, j string :: k != source && j != source && old(tl.bucketSets.vdom[k]) && !tl.bucketSets.vdom[k] && old(tl.bucketSets.vdom[j]) ==> old(tl.bucketSets.vexp[k]) <= old(tl.bucketSets.vexp[j])
 //@   ensures too_big_gets_plain_error: (exists p int :: in(p, setOf(tl, source).buckets) && amount > setOf(tl, source).buckets[p].burst) ==> result != nil && !istype(result, "*MaxRateError")
 //@   ensures too_big_is_plain_error: result != nil && !istype(result, "*MaxRateError") ==> (exists p int :: in(p, setOf(tl, source).buckets) && amount > setOf(tl, source).buckets[p].burst)
 //@   ensures delay_error: calls(Consume) == 1 && callres(Consume, 0, 1) == nil && callres(Consume, 0, 0) > 0 ==> istype(result, "*MaxRateError") && asref(payload(result), "*MaxRateError").Delay == callres(Consume, 0, 0)
